@@ -181,3 +181,59 @@ def newline_crossing_rule(ctx):
     r.check(okrf, "SafeToDeleteNl/comment-means-unsafe", db.loc(g, g.l0), "a preceding // comment no longer makes SafeToDeleteNl() false")
     r.floor(14)
     return r
+
+
+def move_across_break_rule(ctx):
+    """newlines_chunk_pos() moves an operator/comma to the other side of a line break (pos_* = lead/trail).  Inside or next
+    to a preprocessor directive that moves a token out of its directive or into the next one: every such move is made
+    only when the neighbour on the far side was shown not to lie in a directive."""
+    db = ctx.db
+    r = ctx.rule("move-across-break", "every MoveAfter() in newlines_chunk_pos() is dominated by the fact that `prev` is not PCF_IN_PREPROC, and "
+                 "the lead-case move additionally by `next2->Is(CT_PREPROC)` false")
+    f = db.fn("newlines_chunk_pos", file="src/newlines/chunk_pos.cpp")
+    r.names(f, "pc", "prev", "next")
+    mv = [n for n in f.all_nodes() if n["k"] == "call" and n.get("c") == "Chunk::MoveAfter"]
+    r.require(len(mv) >= 2, "newlines_chunk_pos: %d MoveAfter calls" % len(mv))
+    for n in mv:
+        r.seen()
+        cs = [(expr_str(f, cn), pol) for cn, pol in f.guard_conds(f.nblock[n["i"]]) if cn is not None]
+        flat = []
+        for c, pol in cs:
+            flat.append((c, pol))
+        arg = expr_str(f, n["a"][0]) if n.get("a") else "?"
+        ok = ("prev->TestFlags(PCF_IN_PREPROC)", False) in flat or ("!prev->TestFlags(PCF_IN_PREPROC)", True) in flat
+        r.check(ok, "newlines_chunk_pos/MoveAfter(%s)/not-into-directive" % arg, db.loc(f, n),
+                "the token is moved across a line break without the test that its neighbour is outside a preprocessor directive "
+                "(IsSamePreproc compares only the flag, not the directive): the token can leave its #define or land in front of the next '#'")
+        if arg == "next":
+            r.check(("next2->Is(CT_PREPROC)", False) in flat, "newlines_chunk_pos/MoveAfter(next)/next-line-is-no-directive", db.loc(f, n),
+                    "the lead-case move is not guarded by `next2->Is(CT_PREPROC)` false")
+    r.floor(2)
+    return r
+
+
+def swap_lines_rule(ctx):
+    """Chunk::SwapLines exchanges two whole lines.  Outside the sorters it is used to move `break` / `return` behind the
+    closing brace of a case block; that is a move of one token only if both chunks are the first on their lines."""
+    db = ctx.db
+    r = ctx.rule("swap-first-on-line", "every Chunk::SwapLines call outside sorting.cpp is dominated by the facts that both chunks are the first "
+                 "chunk of their line (`X->GetPrev()->IsNewline()` for receiver and argument)")
+    n_calls = 0
+    for f in db.funcs.values():
+        if f.file == "src/sorting.cpp" or f.d.get("cls") == "Chunk":
+            continue
+        for n in f.nodes.values():
+            if n["k"] != "call" or n.get("c") != "Chunk::SwapLines":
+                continue
+            n_calls += 1
+            r.seen()
+            a, b = expr_str(f, n.get("o")), expr_str(f, n["a"][0])
+            cs = [(expr_str(f, cn), pol) for cn, pol in f.guard_conds(f.nblock[n["i"]]) if cn is not None and pol is True]
+            txt = " ".join(c for c, p in cs)
+            firsts = set(re.findall(r"(\w+)->GetPrev\(\w*\)->IsNewline\(\)", txt))
+            r.check(len(firsts) >= 2, "%s/SwapLines(%s,%s)" % (f.qn, a, b), db.loc(f, n),
+                    "%s swaps the lines of `%s` and `%s` without the tests that both are the first chunk of their line (found for: %s): other "
+                    "tokens of those lines are carried along" % (f.qn, a, b, sorted(firsts) or "none"))
+    r.require(n_calls >= 2, "only %d SwapLines calls outside the sorters" % n_calls)
+    r.floor(2)
+    return r
